@@ -341,7 +341,7 @@ func (x *Exec) libCall(s *State, site ssa.Instruction, fn *ssa.Function, name st
 		return true
 	case "strings.TrimSpace":
 		x.used(name)
-		r := x.freshStr(s, site, "trim")
+		r := UF("ufs_trimspace", SString, T(0))
 		s.assume(StrContains(T(0), r))
 		s.assume(Le(StrLen(r), StrLen(T(0))))
 		k(s, r)
